@@ -80,7 +80,7 @@ def monomial(
     stop = numpy.array(stop, dtype=int)
     if isinstance(dimensions, str):
         names, dimensions = (dimensions,), 1
-    elif isinstance(dimensions, int):
+    elif isinstance(dimensions, (int, numpy.integer)):
         dimensions = max(start.size, stop.size, dimensions)
         names = numpoly.variable(dimensions).names
     elif dimensions is None:
